@@ -232,6 +232,9 @@ func Minimise(t *testing.T, s0 *Scenario, class string, mk func() Checker, budge
 	// 8. shrink ranges: pull stop of the last request down
 	for k := 0; k < 6; k++ {
 		if !try(func(c *Scenario) bool {
+			if len(c.History) == 0 {
+				return false
+			}
 			h := &c.History[len(c.History)-1]
 			if h.Req.Stop <= uint64(h.Req.Start)+2 {
 				return false
